@@ -154,12 +154,15 @@ pub fn push_str(s: &mut String, t: &str) {
         }
         let len = v.len();
         let n = t.len();
-        assert!(len + n <= v.capacity(), "push_str model: capacity bound exceeded");
+        let cap = v.capacity();
+        assert!(len + n <= cap, "push_str model: capacity bound exceeded");
         let src = t.as_bytes();
-        let dst = v.as_mut_ptr().add(len);
+        // indexed writes into the whole buffer (no per-byte pointer arithmetic: Kani's model of
+        // `ptr::add` costs ~30 symbolic-execution steps per byte)
+        let buf: &mut [u8] = std::slice::from_raw_parts_mut(v.as_mut_ptr(), cap);
         let mut i = 0;
         while i < n {
-            std::ptr::write(dst.add(i), src[i]);
+            buf[len + i] = src[i];
             i += 1;
         }
         v.set_len(len + n);
@@ -173,8 +176,10 @@ pub fn push_char(s: &mut String, c: char) {
             std::ptr::write(v, Vec::with_capacity(SCAP));
         }
         let len = v.len();
-        assert!(len < v.capacity(), "push model: capacity bound exceeded");
-        std::ptr::write(v.as_mut_ptr().add(len), c as u8);
+        let cap = v.capacity();
+        assert!(len < cap, "push model: capacity bound exceeded");
+        let buf: &mut [u8] = std::slice::from_raw_parts_mut(v.as_mut_ptr(), cap);
+        buf[len] = c as u8;
         v.set_len(len + 1);
     }
 }
